@@ -247,8 +247,8 @@ func (idx *timeSeriesIndex) Load(
 	defer idx.lock.RUnlock()
 
 	highContainerIdx := idx.ids.Keys().GetContainerIndex(seriesIDHighKey)
-	if highContainerIdx == -1 {
-		// not found
+	if highContainerIdx < 0 {
+		// not found (GetContainerIndex answers -(insertion point)-1 for a missing high key)
 		return
 	}
 	lowContainer := idx.ids.Keys().GetContainerAtIndex(highContainerIdx)
